@@ -78,18 +78,23 @@ Theorem C03_json_file_roundtrip : forall rows,
 Proof. exact JsonText_proofs.jparse_json_file. Qed.
 Print Assumptions C03_json_file_roundtrip.
 
+From Coq Require Import String.
+Local Open Scope string_scope.
 (* tie to the source (regenerated): what the CSV dumper stamps into the descriptor is what the
    cell codecs above assume -- '' is the null text, booleans are written as True/False *)
 Theorem C03_csv_stamps_from_source :
   c_csv_null = [] /\
   existsb (fun p => str_eqb (fst p) s_boolean &&
                     existsb (fun q => str_eqb (snd q) s_True) (snd p) && existsb (fun q => str_eqb (snd q) s_False) (snd p))
-          c_csv_stamps = true.
-Proof. vm_compute. split; reflexivity. Qed.
+          c_csv_stamps = true /\
+  (* numbers are declared as they are written: plain, with a decimal point and no group character *)
+  (let stamped t k v := existsb (fun p => str_eqb (fst p) t && existsb (fun q => str_eqb (fst q) k && str_eqb (snd q) v) (snd p))
+                                c_csv_stamps in
+   stamped s_number (s "decimalChar") (s ".") && stamped s_number (s "groupChar") [] && stamped s_number (s "bareNumber") s_True
+   && stamped s_integer (s "bareNumber") s_True) = true.
+Proof. vm_compute. repeat split; reflexivity. Qed.
 Print Assumptions C03_csv_stamps_from_source.
 
-From Coq Require Import String.
-Local Open Scope string_scope.
 (* the CSV layer on a table with quotes, delimiters and line breaks in cells *)
 Example C03_csv_roundtrip_example :
   let recs := [[s "id"; s "note"]; [s "1"; s "a,b"]; [s "2"; s "say ""x"""]; [s "3"; app (s "l1") (10%Z :: s "l2")]; [s ""; s ""]] in
